@@ -339,7 +339,8 @@ def install(rf, ctrl, hook_models=True):
     # on first use) is left to the code, which then gets its locks from the factory below - every such lock is a controlled lock
     # under a fresh name, and creating one inside a worker is a scheduling point
     for attr, nm in (('_src_lock', 'S'), ('_ref_lock', 'R'), ('_corr_lock', 'C'), ('_param_lock', 'P')):
-        if attr in rf.__dict__:
+        # (only real locks: whatever else the code has put there - a no-op context manager, say - stays, and protects nothing)
+        if attr in rf.__dict__ and hasattr(rf.__dict__[attr], 'acquire') and hasattr(rf.__dict__[attr], 'release'):
             setattr(rf, attr, RecLock(nm, ctrl))
 
     class ThreadingShim:
